@@ -1529,6 +1529,11 @@ def build(unit, repo_root, diff=False, canary=False, extra_stubs=()):
             FnEmitter(repo, parts[1], parts[2], 'stub', counts, info, canary=canary, heap_fns=heap_fns, nocontract=True).emit(out)
             info['functions'][-1]['mode'] = 'abstract'
             info.setdefault('abstract', []).append('%s::%s' % (parts[1], parts[2]))
+        elif cmd == 'prove-overlay':
+            # the verbatim body is proved against the clauses of the unit's overlay contract ONLY (its base contract - with
+            # preconditions the callers of this unit cannot establish, and the proof hints that go with them - is left out)
+            FnEmitter(repo, parts[1], parts[2], 'prove', counts, info, canary=canary, heap_fns=heap_fns, nocontract='overlay').emit(out)
+            info.setdefault('prove_overlay', []).append('%s::%s' % (parts[1], parts[2]))
         elif cmd == 'stub-overlay':
             FnEmitter(repo, parts[1], parts[2], 'stub', counts, info, canary=canary, heap_fns=heap_fns, nocontract='overlay').emit(out)
             info.setdefault('stub_overlay', []).append('%s::%s' % (parts[1], parts[2]))
